@@ -464,7 +464,7 @@ func c05GenDoc(r *h.RNG) string {
 }
 
 func c05Docs(c *Ctx) error {
-	n := c.N(4000, 100000)
+	n := c.N(12000, 200000)
 	if c.Search {
 		n *= 3
 	}
